@@ -139,11 +139,11 @@ def run(report, tier):
     pre_f = G.PRELUDE + "".join(G.tables(q, "f64") for q in catalogue.CATALOGUE)
     for q in catalogue.ASTRO:
         pre_f += G.tables(q, "f64").replace("const %s_" % q.name.upper(), "const A%s_" % q.name.upper())
-    synth = [synthdefs.PILE, synthdefs.TRI, synthdefs.TARIFF, synthdefs.DOSE]
+    synth = [synthdefs.PILE, synthdefs.STACK, synthdefs.TRI, synthdefs.TARIFF, synthdefs.DOSE, synthdefs.PRESSURE]
     pre_f += synthdefs.SYNTH_RS + "".join(G.tables(q, "f64") for q in synth)
     kf = KaniCrate("c09f", "f64", astro=True, extra_src=pre_f)
     for q in synth:
-        add_type(kf, q, "f64", "", nbytes, True, True)
+        add_type(kf, q, "f64", "", nbytes, len(q.units) <= 8, True)
     # symbolic strings cost grows steeply with the number of units (18-unit types: > 15 min at 2 bytes)
     small = {q.name for q in catalogue.CATALOGUE if len(q.units) <= 8}
     string_types = small if tier == "quick" else {q.name for q in catalogue.CATALOGUE if len(q.units) <= 13}
@@ -177,7 +177,7 @@ def run(report, tier):
                 report.violation("registry:missing:" + ",".join(names), "declared units/constants are missing from the generated registry: %s" % names, p)
     report.functions.update(["Unit::iter / Quantity::iter_units (real core::iter)", "Unit::from_symbol", "Quantity::unit_from_symbol", "LinearScaledUnit::from_scale",
                              "HasRefUnit::unit_from_scale", "LinearScaledUnit::is_ref_unit", "Unit::as_qty", "generated VARIANTS / constants"])
-    report.bounds.update({"units": "every unit / position of 14 catalogue types (f64 + decimal), 4 astronomical types and 4 synthetic macro-defined types (single-unit, two without reference unit - one whose name order differs from identifier order -, one with reference unit) by symbolic index",
+    report.bounds.update({"units": "every unit / position of 14 catalogue types (f64 + decimal), 4 astronomical types and 6 synthetic macro-defined types (two single-unit, two without reference unit - one whose name order differs from identifier order -, a 4-unit and a 24-unit type with reference unit, the latter declared out of order with equal-scale units) by symbolic index",
                           "strings": "every UTF-8 string of <= %d bytes for the types with <= %d units, plus every declared symbol of every type" % (nbytes, 8 if tier == "quick" else 13),
                           "scales": "every f64 bit pattern (decimal scale lookup: not covered by E1)"})
     confirm_failures(report)
